@@ -222,7 +222,7 @@ Fixpoint names_e (e : expr) : list name :=
   end.
 Definition memn (n : name) (l : list name) : bool := existsb (Nat.eqb n) l.
 
-(* old = true: before b71cf14 (no check that the index is only used in x[i]); nocap = true: before 6ebed2a (no check
+(* old = true: before b71cf14 (no check that the index is only used in x[i]); nocap = true: before 63d3448 (no check
    that the new name x_i is not in use); used = the names written in the module.
    _simple_cases (performance.py:396-447): the element IS x[i] -> list(x).
    _complex_cases (449-509): exactly one x[i] (the comparison in 489 is against a one-element set: other uses of x,
@@ -246,7 +246,7 @@ Fixpoint sub_with (old nocap : bool) (used : list name) (e : expr) : expr :=
   end.
 Definition sub := sub_with false false.
 Definition sub_before_b71cf14 := sub_with true false.
-Definition sub_before_6ebed2a := sub_with false true.
+Definition sub_before_63d3448 := sub_with false true.
 
 (* guard of the _partial theorem: x is not the index, x holds a sequence whose __getitem__ agrees with iteration
    (or nothing iterable at all); covers: used really lists the names the expression mentions *)
